@@ -72,7 +72,7 @@ CHECKS = {
         "Proved for all inputs: ContractionCosts.__init__ establishes and ContractionCosts.remove preserves the cost-model invariant (per-contraction flops/size are the "
         "products over the reduced index sets, tracked flops = their sum, tracked sizes = their multiset, where-map exact); SliceFinder.best/search return a cached slicing that "
         "satisfies every target in force; SliceFinder.trial keeps the cache invariants (the entry cached under a set of indices is the base minus exactly those indices; no cached "
-        "set contains a forbidden index); MaxCounter invariant; copy completeness. "
+        "set contains a forbidden index); MaxCounter invariant; copy completeness; from_contraction_tree forwards the caller's options to the constructor unchanged (syntactic clause: the baseline of `overhead` is the constructor's proved default). "
         "Bounded: whenever SliceFinder.search returns, predicted size/flops/nslices equal those of the tree "
         "actually sliced, targets honoured, forbidden indices never chosen; ContractionCosts.remove == ContractionTree.remove_ind figures for every index and ordered pair.",
         "Searches that raise are outside the property and counted separately.",
@@ -147,7 +147,7 @@ CHECKS = {
     "C18": _c(
         "other",
         "Proved for all leg maps: legs_union and compute_contracted_info equal the common step spec (kept = combined count below the global count; cost = product over the union; "
-        "size = product over kept). Bounded: the four simulators replay the same path step by step; reported flops/scores equal the rebuilt tree's.",
+        "size = product over kept); syntactic clause: every node the lightweight processor creates through contract_nodes takes its legs from compute_contracted (directly, by default, or through the greedy candidate table). Bounded: the four simulators replay the same path step by step; reported flops/scores equal the rebuilt tree's.",
         "Tree rule (get_legs/get_involved) and processor rule (compute_contracted) are proved against the same step spec; the hypergraph rule is bounded only.",
     ),
     "C19": _c(
